@@ -21,6 +21,7 @@ type Config struct {
 	ScalarsOnly bool // one group per scalar implementation
 	Groups    string // comma list filter (empty = all)
 	CodecAll  bool   // binding i uses codec path i%3 (C03)
+	LastOp    string // pickembed: only behaviours ending in this op
 }
 
 func Load(path string) ([]Behaviour, [][]byte, error) {
